@@ -65,16 +65,20 @@ static size_t ref_apply(int f, std::vector<uint8_t> &v, uint32_t param, bool enc
 
 // ---- the chain under test --------------------------------------------------------------------
 struct Chain {
-	lzma_options_lzma lz; lzma_options_bcj bcj; lzma_options_delta del;
-	lzma_filter with[3], without[2];
-	Chain(int f, uint32_t param, bool null_opts) {
+	lzma_options_lzma lz; lzma_options_bcj bcj; lzma_options_delta del, pre;
+	lzma_filter with[4], without[2];
+	// pre_dist != 0: a Delta filter in front, [Delta(pre_dist), F, LZMA2] - F is then fed by another filter instead of by the
+	// application (the encoders' "in place" paths) and, when decoding, feeds another filter instead of the application's buffer
+	Chain(int f, uint32_t param, bool null_opts, uint32_t pre_dist = 0) {
 		if (lzma_lzma_preset(&lz, 0)) harness_bug("lzma_lzma_preset(0) failed");
 		lz.dict_size = 4096;
 		memset(&bcj, 0, sizeof bcj); memset(&del, 0, sizeof del);
 		bcj.start_offset = param; del.type = LZMA_DELTA_TYPE_BYTE; del.dist = param;
-		with[0].id = FI[f].id; with[0].options = f == F_DELTA ? (void *)&del : (null_opts ? nullptr : (void *)&bcj);
-		with[1].id = LZMA_FILTER_LZMA2; with[1].options = &lz; with[2].id = LZMA_VLI_UNKNOWN; with[2].options = nullptr;
-		without[0] = with[1]; without[1] = with[2];
+		memset(&pre, 0, sizeof pre); pre.type = LZMA_DELTA_TYPE_BYTE; pre.dist = pre_dist;
+		unsigned n = 0; if (pre_dist) { with[n].id = LZMA_FILTER_DELTA; with[n++].options = &pre; }
+		with[n].id = FI[f].id; with[n++].options = f == F_DELTA ? (void *)&del : (null_opts ? nullptr : (void *)&bcj);
+		with[n].id = LZMA_FILTER_LZMA2; with[n].options = &lz; without[0] = with[n++]; with[n].id = LZMA_VLI_UNKNOWN; with[n].options = nullptr;
+		without[1] = with[n];
 	}
 	Chain(const Chain &) = delete; Chain &operator=(const Chain &) = delete;
 };
@@ -378,7 +382,9 @@ static void one_case(Case &c) {
 			FI[f].name, f == F_DELTA ? "dist" : "start_offset", param, null_opts ? "true" : "false", len, (unsigned long long)seed, density, enc_first ? "encode" : "decode", use_sys ? "true" : "false");
 		set_desc(std::string(t) + s1.describe() + ",\"sched2\":" + s2.describe() + "}"); }
 
-	Chain ch(f, param, null_opts);
+	const uint32_t pre_dist = (!bad_param && rare(c, 56)) ? (c.flag() ? 1 : 1 + c.u(256)) : 0;
+	if (pre_dist) { std::string &d = g_stats.current; if (!d.empty() && d.back() == '}') { d.pop_back(); d += ",\"delta_in_front\":" + std::to_string(pre_dist) + "}"; } count("filter_fed_by_another_filter"); }
+	Chain ch(f, param, null_opts, pre_dist);
 	if (bad_param) { // must be refused by both initialisers
 		lzma_stream s = LZMA_STREAM_INIT; lzma_ret a = lzma_raw_encoder(&s, ch.with); lzma_end(&s);
 		lzma_stream d = LZMA_STREAM_INIT; lzma_ret b = lzma_raw_decoder(&d, ch.with); lzma_end(&d);
@@ -395,8 +401,11 @@ static void one_case(Case &c) {
 	const char *d1 = enc_first ? "encode" : "decode", *d2 = enc_first ? "decode" : "encode";
 	// reference
 	ref::BcjStats st;
-	std::vector<uint8_t> y_ref = x; const size_t processed = ref_apply(f, y_ref, param, enc_first, &st);
-	std::vector<uint8_t> z_ref = y_ref; ref_apply(f, z_ref, param, !enc_first);
+	// encoding applies the chain front to back (Delta in front first), decoding back to front
+	std::vector<uint8_t> y_ref = x; if (pre_dist && enc_first) ref_apply(F_DELTA, y_ref, pre_dist, true);
+	const size_t processed = ref_apply(f, y_ref, param, enc_first, &st); if (pre_dist && !enc_first) ref_apply(F_DELTA, y_ref, pre_dist, false);
+	std::vector<uint8_t> z_ref = y_ref; if (pre_dist && !enc_first) ref_apply(F_DELTA, z_ref, pre_dist, true);
+	ref_apply(f, z_ref, param, !enc_first); if (pre_dist && enc_first) ref_apply(F_DELTA, z_ref, pre_dist, false);
 	// (1) pinned + (3) length + (4) slicing, first direction
 	std::vector<uint8_t> lz2;
 	std::vector<uint8_t> y = lib_transform(ch, x, enc_first, s1, &lz2);
@@ -410,7 +419,7 @@ static void one_case(Case &c) {
 		violation(sig.c_str(), "%s: %s after %s does not return the original: %s (reference round trip %s)", FI[f].name, d2, d1, diff_text(z, x).c_str(), z_ref == x ? "ok" : "also differs"); }
 	if (z_ref != x) violation("C15:reference-roundtrip", "%s: liblzma round trip is fine but the reference %s does not invert its %s: %s", FI[f].name, d2, d1, diff_text(z_ref, x).c_str());
 	// (4) one-shot functions
-	if (f == F_X86 || f == F_ARM64 || f == F_RISCV) {
+	if ((f == F_X86 || f == F_ARM64 || f == F_RISCV) && !pre_dist) {
 		std::vector<uint8_t> b = x; static uint8_t dummy[8]; uint8_t *p = b.empty() ? dummy : b.data(); size_t got;
 		if (f == F_X86) got = enc_first ? lzma_bcj_x86_encode(param, p, b.size()) : lzma_bcj_x86_decode(param, p, b.size());
 		else if (f == F_ARM64) got = enc_first ? lzma_bcj_arm64_encode(param, p, b.size()) : lzma_bcj_arm64_decode(param, p, b.size());
